@@ -18,11 +18,13 @@ EXTENDS Naturals, Sequences, FiniteSets, SequencesExt, TLC
 CONSTANTS Attr,        \* the attribute tree: set of [owner, name, target]; owner / target are node ids
           ModuleOf,    \* [dotted module path (sequence) -> node id] for every importable module
           ExtraLoads,  \* [module path -> further module paths its own code imports]
+          SkipForms,   \* values of skip_unknown explored: [mode |-> "false" | "true" | "list", names |-> set of selectors]
           Templates,   \* statements a file may contain
           MaxStmts
 
-VARIABLES doc          \* the file after the enabling statement: sequence of statements
-vars == <<doc>>
+VARIABLES doc,         \* the file after the enabling statement: sequence of statements
+          skip         \* the skip_unknown argument of the parse
+vars == <<doc, skip>>
 
 (* statements:
    [t |-> "import", form |-> "plain" | "as" | "from" | "fromas", module |-> path, alias |-> "" or name]
@@ -94,10 +96,19 @@ Configurable(st, sel) ==
        IF IsRegistered(st, obj) THEN [status |-> "ok", st |-> st, obj |-> obj]
        ELSE [status |-> "ok", st |-> RegisterChain(st, sel, r[2]), obj |-> obj]
 
+\* with dynamic registration a name is known iff it resolves through the file's own imports (fix of F11)
+KnownSel(st, sel) == ResolveSel(st, sel)[1] = "ok"
+SkipSel(st, sel) ==
+  IF KnownSel(st, sel) THEN FALSE
+  ELSE IF skip.mode = "false" THEN FALSE
+  ELSE IF skip.mode = "true" THEN TRUE
+  ELSE sel \in skip.names
+
 ApplyStmt(st, s) ==
   CASE s.t = "enable" -> [status |-> "SyntaxError", st |-> st]            \* enabled late (196-202)
     [] s.t = "import" ->
-         IF s.module \notin DOMAIN ModuleOf THEN [status |-> "ImportError", st |-> st]
+         IF s.module \notin DOMAIN ModuleOf
+         THEN (IF skip.mode # "false" THEN [status |-> "ok", st |-> st] ELSE [status |-> "ImportError", st |-> st])
          ELSE IF BoundName(s) = "gin" THEN [status |-> "ValueError", st |-> [st EXCEPT !.loaded = @ \cup LoadedBy(s.module)]]  \* 212-216
          ELSE [status |-> "ok",
                st |-> [st EXCEPT !.symbols = { e \in @ : e.name # BoundName(s) } \cup {[name |-> BoundName(s), node |-> ImportedObject(s)]},
@@ -106,13 +117,16 @@ ApplyStmt(st, s) ==
                                  !.imports = Append(@, s)]]
     [] s.t = "bind" ->
          \* the value is parsed first: a reference in it resolves (and registers) its target (700-715)
-         LET v == IF s.ref = <<>> THEN [status |-> "ok", st |-> st, obj |-> "none"] ELSE Configurable(st, s.ref)
+         LET v == IF s.ref = <<>> \/ SkipSel(st, s.ref) THEN [status |-> "ok", st |-> st, obj |-> "none"] ELSE Configurable(st, s.ref)
              c == Configurable(v.st, s.sel)
          IN
          IF v.status # "ok" THEN [status |-> v.status, st |-> st]
+         ELSE IF SkipSel(v.st, s.sel) THEN [status |-> "ok", st |-> v.st]           \* the statement is dropped
          ELSE IF c.status # "ok" THEN [status |-> c.status, st |-> v.st]
          ELSE [status |-> "ok",
-               st |-> [c.st EXCEPT !.cfg = { b \in @ : ~(b.obj = c.obj /\ b.param = s.param) } \cup {[obj |-> c.obj, param |-> s.param, val |-> s.val]}]]
+               st |-> [c.st EXCEPT !.cfg = { b \in @ : ~(b.obj = c.obj /\ b.param = s.param) }
+                                          \cup {[obj |-> c.obj, param |-> s.param,
+                                                 val |-> IF s.ref # <<>> /\ SkipSel(st, s.ref) THEN "unk" ELSE s.val]}]]
 
 RECURSIVE Run(_, _, _)
 Run(st, d, k) ==
@@ -144,12 +158,20 @@ PyRefDenotes(d, k) ==
   LET b == PyBinding(d, k, d[k].ref[1]) IN
   IF b = "none" THEN "none" ELSE PyWalk(PyLoaded(d, k), b, Tail(d[k].ref))
 
+\* skip_unknown under dynamic registration: a statement is deleted iff its name does not denote anything through this
+\* file's imports and the argument covers it (independent of what was registered before)
+PyDropped(d, k) ==
+  d[k].t = "bind" /\ PyDenotes(d, k) = "none" /\ (skip.mode = "true" \/ (skip.mode = "list" /\ d[k].sel \in skip.names))
+PyRefDropped(d, k) ==
+  d[k].t = "bind" /\ d[k].ref # <<>> /\ PyRefDenotes(d, k) = "none"
+  /\ (skip.mode = "true" \/ (skip.mode = "list" /\ d[k].ref \in skip.names))
+
 \* C19: every applied binding configures exactly the object its dotted name denotes; all spellings of one object
 \* share one configurable; names not provided by the file's own imports are errors
 C19_ExactObject ==
   LET r == Result
       n == IF r.status = "ok" THEN Len(doc) ELSE r.at - 1
-  IN \A k \in 1..n : doc[k].t = "bind" =>
+  IN \A k \in 1..n : (doc[k].t = "bind" /\ ~PyDropped(doc, k)) =>
         /\ PyDenotes(doc, k) # "none"
         /\ \E b \in r.st.cfg : b.obj = PyDenotes(doc, k) /\ b.param = doc[k].param
 C19_SameConfigurable ==
@@ -161,17 +183,20 @@ C19_Errors ==
   r.status # "ok" =>
     LET s == doc[r.at] IN
     CASE s.t = "bind" -> r.status \in {"NameError", "AttributeError"}
-                          /\ (PyDenotes(doc, r.at) = "none" \/ (s.ref # <<>> /\ PyRefDenotes(doc, r.at) = "none"))
-      [] s.t = "import" -> (s.module \notin DOMAIN ModuleOf /\ r.status = "ImportError") \/ (BoundName(s) = "gin" /\ r.status = "ValueError")
+                          /\ ((PyDenotes(doc, r.at) = "none" /\ ~PyDropped(doc, r.at))
+                              \/ (s.ref # <<>> /\ PyRefDenotes(doc, r.at) = "none" /\ ~PyRefDropped(doc, r.at)))
+      [] s.t = "import" -> (s.module \notin DOMAIN ModuleOf /\ r.status = "ImportError" /\ skip.mode = "false")
+                            \/ (BoundName(s) = "gin" /\ r.status = "ValueError")
       [] s.t = "enable" -> r.status = "SyntaxError"
 \* the only bindings present are those spelled by the applied statements (last one wins per object and parameter)
 C19_NothingElse ==
   LET r == Result
       n == IF r.status = "ok" THEN Len(doc) ELSE r.at - 1
-  IN \A b \in r.st.cfg : \E k \in 1..n : doc[k].t = "bind" /\ PyDenotes(doc, k) = b.obj /\ doc[k].param = b.param /\ doc[k].val = b.val
+  IN \A b \in r.st.cfg : \E k \in 1..n : doc[k].t = "bind" /\ PyDenotes(doc, k) = b.obj /\ doc[k].param = b.param
+        /\ b.val = (IF PyRefDropped(doc, k) THEN "unk" ELSE doc[k].val)
         /\ \A j \in (k + 1)..n : ~(doc[j].t = "bind" /\ PyDenotes(doc, j) = b.obj /\ doc[j].param = b.param)
 
-Init == doc = <<>>
-Next == Len(doc) < MaxStmts /\ \E t \in Templates : doc' = Append(doc, t)
+Init == doc = <<>> /\ skip \in SkipForms
+Next == Len(doc) < MaxStmts /\ \E t \in Templates : doc' = Append(doc, t) /\ UNCHANGED skip
 Spec == Init /\ [][Next]_vars
 =============================================================================
